@@ -403,30 +403,65 @@ theorem draw_eq_outline (g : Glyph R) :
     | nil => rfl
     | cons c cs => simp only [drawRaw_eq]
 
+theorem releaseAll_cons (ids : List Ident) (x : Ident) (xs : List Ident) :
+    releaseAll ids (x :: xs) = releaseAll (ids.erase x) xs := rfl
+
+theorem nodup_releaseAll (ids xs : List Ident) (h : ids.Nodup) : (releaseAll ids xs).Nodup := by
+  induction xs generalizing ids with
+  | nil => exact h
+  | cons x xs ih => rw [releaseAll_cons]; exact ih _ (h.erase x)
+
+/-- handing over: releasing a reserved prefix of a duplicate-free registry leaves the rest -/
+theorem releaseAll_append_left (S T : List Ident) (h : (S ++ T).Nodup) : releaseAll (S ++ T) S = T := by
+  induction S with
+  | nil => rfl
+  | cons s S ih =>
+    rw [releaseAll_cons]
+    have : (s :: S ++ T).erase s = S ++ T := by simp
+    rw [this]
+    exact ih (by simpa using (List.nodup_cons.mp (by simpa using h)).2)
+
+theorem rawIdents_eq (raws : List (RawContour R)) :
+    rawIdents raws = present (slotsOf (raws.map RawContour.toContour)) := by
+  induction raws with
+  | nil => rfl
+  | cons c cs ih =>
+    simp only [rawIdents, List.flatMap_cons, List.map_cons, slotsOf_cons, present_append] at ih ⊢
+    rw [ih]
+    congr 1
+    cases hc : c.identifier <;>
+      simp [Contour.slots, RawContour.toContour, hc, present, List.filterMap_map, Function.comp_def,
+        RawPoint.toPoint]
+
 theorem deepen_ok {g : Glyph R} {raws : List (RawContour R)} (hs : g.shallow = some raws)
-    (h : (g.ids ++ present (slotsOf (raws.map RawContour.toContour))).Nodup) :
+    (h : (releaseAll g.ids (rawIdents raws) ++ present (slotsOf (raws.map RawContour.toContour))).Nodup) :
     deepen g = .ok { g with shallow := none, contours := g.contours ++ raws.map RawContour.toContour,
-                            ids := g.ids ++ present (slotsOf (raws.map RawContour.toContour)) } := by
+                            ids := releaseAll g.ids (rawIdents raws) ++
+                                   present (slotsOf (raws.map RawContour.toContour)) } := by
   unfold deepen
   simp only [hs, drawRaw_eq]
-  have := runCore_contours (raws.map RawContour.toContour) { g with shallow := none } h
+  have := runCore_contours (raws.map RawContour.toContour)
+    { g with shallow := none, ids := releaseAll g.ids (rawIdents raws) } h
   simp only [bind, Except.bind, this]
 
 /-- a successful deepening has exactly this result (the registry being a set) -/
 theorem deepen_result {g g' : Glyph R} {raws : List (RawContour R)} (hs : g.shallow = some raws)
     (hn : g.ids.Nodup) (h : deepen g = .ok g') :
-    (g.ids ++ present (slotsOf (raws.map RawContour.toContour))).Nodup ∧
+    (releaseAll g.ids (rawIdents raws) ++ present (slotsOf (raws.map RawContour.toContour))).Nodup ∧
     g' = { g with shallow := none, contours := g.contours ++ raws.map RawContour.toContour,
-                  ids := g.ids ++ present (slotsOf (raws.map RawContour.toContour)) } := by
+                  ids := releaseAll g.ids (rawIdents raws) ++
+                         present (slotsOf (raws.map RawContour.toContour)) } := by
   have h0 := h
   unfold deepen at h
   simp only [hs, bind, Except.bind] at h
-  cases hr : runCore false (drawRaw raws) ⟨{ g with shallow := none }, none⟩ with
+  cases hr : runCore false (drawRaw raws)
+      ⟨{ g with shallow := none, ids := releaseAll g.ids (rawIdents raws) }, none⟩ with
   | error x => simp [hr] at h
   | ok s' =>
-    have hnd := (runCore_false_ids hr hn).2
+    have hnd := (runCore_false_ids hr (nodup_releaseAll _ _ hn)).2
     rw [drawRaw_eq, evSlots_contours] at hnd
-    have hnd' : (g.ids ++ present (slotsOf (raws.map RawContour.toContour))).Nodup := hnd
+    have hnd' : (releaseAll g.ids (rawIdents raws) ++
+        present (slotsOf (raws.map RawContour.toContour))).Nodup := hnd
     refine ⟨hnd', ?_⟩
     rw [deepen_ok hs hnd'] at h0
     exact (Except.ok.inj h0).symm
@@ -456,12 +491,13 @@ theorem loadRun_append (a b : List (Ev R)) (g : Glyph R) :
     | ok s' => simp [bind, Except.bind, ih]
 
 theorem loadRun_points (pts : List (Point R)) (g : Glyph R) (l : List (RawContour R)) (rc : RawContour R)
-    (hs : g.shallow = some (l ++ [rc])) (hfree : ∀ i ∈ present (pts.map (·.ident)), i ∉ g.ids) :
+    (hs : g.shallow = some (l ++ [rc])) (h : (g.ids ++ present (pts.map (·.ident))).Nodup) :
     loadRun (pts.map .addPoint) g =
-      .ok { g with shallow := some (l ++ [{ rc with points := rc.points ++ pts.map Point.toRaw }]) } := by
+      .ok { g with shallow := some (l ++ [{ rc with points := rc.points ++ pts.map Point.toRaw }]),
+                   ids := g.ids ++ present (pts.map (·.ident)) } := by
   induction pts generalizing g rc with
   | nil =>
-    simp only [List.map_nil, loadRun, List.append_nil]
+    simp only [List.map_nil, loadRun, List.append_nil, present_nil]
     cases g; simp_all
   | cons p ps ih =>
     simp only [List.map_cons, loadRun, loadStep]
@@ -470,52 +506,65 @@ theorem loadRun_points (pts : List (Point R)) (g : Glyph R) (l : List (RawContou
       simp only [hs, Option.getD_some, appendRawPoint_snoc, bind, Except.bind]
       have := ih { g with shallow := some (l ++ [{ rc with points := rc.points ++ [⟨(p.x, p.y), p.seg, p.smooth, p.name, none⟩] }]) }
         { rc with points := rc.points ++ [⟨(p.x, p.y), p.seg, p.smooth, p.name, none⟩] } rfl
-        (by intro i hi; exact hfree i (by simp [hp, hi]))
+        (by simpa [hp] using h)
       rw [this]
       simp [Point.toRaw, hp, List.append_assoc]
     | some x =>
-      have hx : x ∉ g.ids := hfree x (by simp [hp])
+      have hx : x ∉ g.ids := by
+        intro hm
+        simp only [List.map_cons, hp, present_some] at h
+        exact (List.nodup_append.mp h).2.2 x hm x (by simp) rfl
       simp only [hx, if_false, hs, Option.getD_some, appendRawPoint_snoc, bind, Except.bind]
-      have := ih { g with shallow := some (l ++ [{ rc with points := rc.points ++ [⟨(p.x, p.y), p.seg, p.smooth, p.name, some x⟩] }]) }
+      have := ih { g with shallow := some (l ++ [{ rc with points := rc.points ++ [⟨(p.x, p.y), p.seg, p.smooth, p.name, some x⟩] }]),
+                          ids := g.ids ++ [x] }
         { rc with points := rc.points ++ [⟨(p.x, p.y), p.seg, p.smooth, p.name, some x⟩] } rfl
-        (by intro i hi; exact hfree i (by simp [hp, hi]))
+        (by simpa [hp, List.append_assoc] using h)
       rw [this]
       simp [Point.toRaw, hp, List.append_assoc]
 
-theorem loadRun_contour (c : Contour R) (g : Glyph R) (hfree : ∀ i ∈ present c.slots, i ∉ g.ids) :
-    loadRun (drawContour c) g = .ok { g with shallow := some (g.shallow.getD [] ++ [c.toRaw]) } := by
+theorem loadRun_contour (c : Contour R) (g : Glyph R) (h : (g.ids ++ present c.slots).Nodup) :
+    loadRun (drawContour c) g =
+      .ok { g with shallow := some (g.shallow.getD [] ++ [c.toRaw]), ids := g.ids ++ present c.slots } := by
   unfold drawContour
   simp only [loadRun, loadStep]
-  have hpts : ∀ i ∈ present (c.points.map (·.ident)), i ∉ g.ids := by
-    intro i hi
-    apply hfree i
-    cases hc : c.ident <;> simp [Contour.slots, hc, hi]
   cases hc : c.ident with
   | none =>
+    have hpts : (g.ids ++ present (c.points.map (·.ident))).Nodup := by
+      simpa [Contour.slots, hc] using h
     simp only [bind, Except.bind]
     rw [loadRun_append]
     rw [loadRun_points c.points { g with shallow := some (g.shallow.getD [] ++ [⟨none, []⟩]) } (g.shallow.getD []) ⟨none, []⟩ rfl hpts]
-    simp [Except.bind, bind, loadRun, loadStep, Contour.toRaw, hc]
+    simp [Except.bind, bind, loadRun, loadStep, Contour.toRaw, Contour.slots, hc]
   | some x =>
-    have hx : x ∉ g.ids := hfree x (by simp [Contour.slots, hc])
+    have hx : x ∉ g.ids := by
+      intro hm
+      simp only [Contour.slots, hc, present_some] at h
+      exact (List.nodup_append.mp h).2.2 x hm x (by simp) rfl
+    have hpts : ((g.ids ++ [x]) ++ present (c.points.map (·.ident))).Nodup := by
+      simpa [Contour.slots, hc, List.append_assoc] using h
     simp only [hx, if_false, bind, Except.bind]
     rw [loadRun_append]
-    rw [loadRun_points c.points { g with shallow := some (g.shallow.getD [] ++ [⟨some x, []⟩]) } (g.shallow.getD []) ⟨some x, []⟩ rfl hpts]
-    simp [Except.bind, bind, loadRun, loadStep, Contour.toRaw, hc]
+    rw [loadRun_points c.points { g with shallow := some (g.shallow.getD [] ++ [⟨some x, []⟩]), ids := g.ids ++ [x] }
+      (g.shallow.getD []) ⟨some x, []⟩ rfl hpts]
+    simp [Except.bind, bind, loadRun, loadStep, Contour.toRaw, Contour.slots, hc, List.append_assoc]
 
 theorem loadRun_contours (cs : List (Contour R)) (g : Glyph R) (l : List (RawContour R)) (hs : g.shallow = some l)
-    (hfree : ∀ i ∈ present (slotsOf cs), i ∉ g.ids) :
-    loadRun (cs.flatMap drawContour) g = .ok { g with shallow := some (l ++ cs.map Contour.toRaw) } := by
+    (h : (g.ids ++ present (slotsOf cs)).Nodup) :
+    loadRun (cs.flatMap drawContour) g =
+      .ok { g with shallow := some (l ++ cs.map Contour.toRaw), ids := g.ids ++ present (slotsOf cs) } := by
   induction cs generalizing g l with
   | nil =>
-    simp only [List.flatMap_nil, loadRun, List.map_nil, List.append_nil]
+    simp only [List.flatMap_nil, loadRun, List.map_nil, List.append_nil, slotsOf, present_nil]
     cases g; simp_all
   | cons c cs ih =>
     simp only [List.flatMap_cons]
-    rw [loadRun_append, loadRun_contour c g (by intro i hi; exact hfree i (by simp [slotsOf_cons, hi]))]
+    have h1 : (g.ids ++ present c.slots).Nodup := by
+      rw [slotsOf_cons, present_append, ← List.append_assoc] at h
+      exact (List.nodup_append.mp h).1
+    rw [loadRun_append, loadRun_contour c g h1]
     simp only [Except.bind, hs, Option.getD_some]
-    rw [ih _ (l ++ [c.toRaw]) rfl (by intro i hi; exact hfree i (by simp [slotsOf_cons, hi]))]
-    simp [List.append_assoc]
+    rw [ih _ (l ++ [c.toRaw]) rfl (by simpa [slotsOf_cons, List.append_assoc] using h)]
+    simp [slotsOf_cons, List.append_assoc]
 
 theorem loadRun_components (ks : List (Component R)) (g : Glyph R)
     (h : (g.ids ++ present (compSlots ks)).Nodup) :
@@ -597,35 +646,37 @@ theorem ofContent_fresh (n : Option String) (c : Content R) (h : c.Valid) :
   rw [build_outline _ _ _ rfl (by simpa [List.append_assoc] using h)]
   simp [Content.allIdents, List.append_assoc]
 
-theorem perm_load (K G A S : List Ident) : ((K ++ G ++ A) ++ S).Perm (G ++ A ++ (S ++ K)) := by
-  have h1 : ((K ++ G ++ A) ++ S) = K ++ (G ++ A ++ S) := by simp [List.append_assoc]
-  have h2 : G ++ A ++ (S ++ K) = (G ++ A ++ S) ++ K := by simp [List.append_assoc]
-  rw [h1, h2]
+theorem perm_load (S K G A : List Ident) : (S ++ K ++ G ++ A).Perm (G ++ A ++ (S ++ K)) := by
+  have h1 : S ++ K ++ G ++ A = (S ++ K) ++ (G ++ A) := by simp [List.append_assoc]
+  rw [h1]
   exact List.perm_append_comm
+
+/-- after the hand-over the registry holds the same identifiers, the reserved ones moved to the end -/
+theorem perm_handover (S T : List Ident) : (T ++ S).Perm (S ++ T) := List.perm_append_comm
 
 theorem load_fresh (n : Option String) (c : Content R) (h : c.Valid) :
     Glyph.load (Glyph.fresh n) c =
       .ok { name := n, width := c.width, height := c.height, unicodes := c.unicodes, note := c.note,
             image := c.image, anchors := c.anchors, guidelines := c.guidelines, lib := c.lib,
             shallow := some (c.contours.map Contour.toRaw), contours := [], components := c.components,
-            ids := present (compSlots c.components) ++ present (c.guidelines.map (·.ident)) ++
-                   present (c.anchors.map (·.ident)) } := by
+            ids := present (slotsOf c.contours) ++ present (compSlots c.components) ++
+                   present (c.guidelines.map (·.ident)) ++ present (c.anchors.map (·.ident)) } := by
   unfold Content.Valid Content.allIdents identsOf at h
-  have hp := (perm_load (present (compSlots c.components)) (present (c.guidelines.map (·.ident)))
-    (present (c.anchors.map (·.ident))) (present (slotsOf c.contours))).nodup_iff.mpr (by simpa using h)
-  have hKGA := nodup_left hp
-  have hKG := nodup_left hKGA
-  have hK := nodup_left hKG
+  have hp := (perm_load (present (slotsOf c.contours)) (present (compSlots c.components))
+    (present (c.guidelines.map (·.ident))) (present (c.anchors.map (·.ident)))).nodup_iff.mpr (by simpa using h)
+  have hSKG := nodup_left hp
+  have hSK := nodup_left hSKG
+  have hS := nodup_left hSK
   unfold Glyph.load
   simp only [Content.draw]
   rw [loadRun_append]
-  rw [loadRun_contours c.contours _ [] rfl (by intro i _; simp [Glyph.fresh])]
+  rw [loadRun_contours c.contours _ [] rfl (by simpa [Glyph.fresh] using hS)]
   simp only [Except.bind, List.nil_append]
-  rw [loadRun_components c.components _ (by simpa [Glyph.fresh] using hK)]
+  rw [loadRun_components c.components _ (by simpa [Glyph.fresh] using hSK)]
   simp only [bind, Except.bind, Glyph.fresh, List.nil_append]
-  rw [claimAll_ok _ _ hKG]
+  rw [claimAll_ok _ _ hSKG]
   simp only
-  rw [claimAll_ok _ _ hKGA]
+  rw [claimAll_ok _ _ hp]
 
 theorem copy_fresh (n : Option String) (src : Glyph R) (h : src.Valid) :
     copyData (Glyph.fresh n) src =
@@ -1619,7 +1670,8 @@ theorem deepenKeep_spec (g : Glyph R) :
   | none => rfl
   | some raws =>
     simp only [runCoreKeep_spec false (drawRaw raws)]
-    rcases h : runCoreKeep false (drawRaw raws) ⟨{ g with shallow := none }, none⟩ with ⟨s', _ | e⟩ <;>
+    rcases h : runCoreKeep false (drawRaw raws)
+        ⟨{ g with shallow := none, ids := releaseAll g.ids (rawIdents raws) }, none⟩ with ⟨s', _ | e⟩ <;>
       simp [bind, Except.bind]
 
 theorem stepKeep_spec (skip : Bool) (s : PenSt R) (e : Ev R) :
@@ -1700,7 +1752,8 @@ theorem deepen_shallow_none {g g' : Glyph R} (h : deepen g = .ok g') : g'.shallo
   | none => simp [hs] at h; rw [← h]; exact hs
   | some raws =>
     simp only [hs, bind, Except.bind] at h
-    cases hr : runCore false (drawRaw raws) ⟨{ g with shallow := none }, none⟩ with
+    cases hr : runCore false (drawRaw raws)
+        ⟨{ g with shallow := none, ids := releaseAll g.ids (rawIdents raws) }, none⟩ with
     | error x => simp [hr] at h
     | ok s' =>
       simp [hr] at h
@@ -1890,6 +1943,25 @@ theorem glyph_segRoundTrip (g : Glyph R) (hf : ∀ c ∈ g.outline, SegFaithful 
   simp [List.map_map, Function.comp_def]
 
 end Seg
+
+theorem mem_releaseAll {ids xs : List Ident} {a : Ident} (hn : ids.Nodup) (h : a ∈ releaseAll ids xs) :
+    a ∈ ids ∧ a ∉ xs := by
+  induction xs generalizing ids with
+  | nil => exact ⟨h, by simp⟩
+  | cons x xs ih =>
+    rw [releaseAll_cons] at h
+    obtain ⟨h1, h2⟩ := ih (hn.erase x) h
+    have := (List.Nodup.mem_erase_iff hn).mp h1
+    exact ⟨this.2, by simp [this.1, h2]⟩
+
+/-- the hand-over never collides: a duplicate-free registry and distinct stored identifiers suffice -/
+theorem nodup_handover (ids xs : List Ident) (hn : ids.Nodup) (hx : xs.Nodup) :
+    (releaseAll ids xs ++ xs).Nodup := by
+  rw [List.nodup_append]
+  refine ⟨nodup_releaseAll _ _ hn, hx, ?_⟩
+  intro a ha b hb hab
+  subst hab
+  exact (mem_releaseAll hn ha).2 hb
 
 end Pen
 end DefconModel
